@@ -61,7 +61,7 @@ TContent    == AtEnd => ((WellFormedF(obs) => SumSeq(Ms, 1) = E.input_len) \/ Vi
 TRoundTrip  == AtEnd => ((E.rt_ok /\ E.rt_equal) \/ Viol("RoundTrip"))
 TRef        == AtEnd => ((E.ref_ok /\ E.ref_equal) \/ Viol("Ref"))
 \* C12: the multi-threaded reader (backward scan) returns the members in file order, and counts them (C18)
-TMtOrder    == AtEnd => ((E.mt_ok /\ E.mt_equal) \/ Viol("MtOrder"))
+TMtOrder    == AtEnd => ((~(E.rt_ok /\ E.rt_equal) \/ (E.mt_ok /\ E.mt_equal)) \/ Viol("MtOrder"))
 TMtCount    == AtEnd => ((~WellFormedF(obs) \/ E.input_len = 0 \/ E.mt_members = Len(Ms)) \/ Viol("MtCount"))
 \* C18: every member <= max(member_size, dict)
 TSizeLimit  == AtEnd => ((run.limit = 0 \/ ~WellFormedF(obs) \/ \A j \in 1..Len(Ms) : Ms[j] <= Max(run.limit, run.dict)) \/ Viol("SizeLimit"))
